@@ -47,7 +47,7 @@ def grid():
             if arch == "arm64" and M == 10:
                 continue
             out.append(["macos", M, m, arch])
-    for s in ("windows_x86", "windows_amd64", "windows_arm64", "windows", "linux", "macos", "alpine", "macos_arm64", "macos_x86_64"):
+    for s in ("windows_x86", "windows_amd64", "windows_arm64", "windows", "linux", "macos", "alpine", "macos_arm64", "macos_x86_64", "windows_x86_64", "windows_i686", "windows_i386", "windows_aarch64"):
         out.append(["name", s])
     return out
 
@@ -70,6 +70,11 @@ ALIASES = {
     "windows_amd64": ["win_amd64"],
     "windows_arm64": ["win_arm64"],
     "windows": ["win_amd64"],
+    # the other spellings Arch.parse documents for the same three Windows architectures
+    "windows_x86_64": ["win_amd64"],
+    "windows_i686": ["win32"],
+    "windows_i386": ["win32"],
+    "windows_aarch64": ["win_arm64"],
     "linux": T.oracle_manylinux(17, "x86_64"),
     "macos": T.oracle_mac(14, 0, "arm64"),
     "macos_arm64": T.oracle_mac(14, 0, "arm64"),
